@@ -12,11 +12,17 @@ mvars == <<vars, case, hist, vds, cache>>
 
 HTSeq == <<1, 2, 3, 129, 130, 131>>
 \* puzzles whose spent script is itself the executed script
+\* where the unlocking data of a puzzle kind lives
+UKind(kind) == CASE kind \in {"p2pkh", "p2pk", "ms_bare", "p2pkh:u"} -> "ss"
+                 [] kind = "ms_p2sh" -> "p2sh"
+                 [] kind \in {"p2sh_p2wpkh", "ms_p2sh_p2wsh"} -> "p2sh_wit"
+                 [] OTHER -> "wit"
 Nopable(kind) == kind \in {"p2pkh", "p2pk", "ms_bare", "p2pkh:u"}
 NoCache == [h \in HashTypes |-> <<>>]
 
 MInit == /\ case \in Cases
-         /\ InitWith(case.nin, case.nout, case.H, case.S, [k \in 1..case.nin |-> Nopable(case.K[k])])
+         /\ InitWithU(case.nin, case.nout, case.H, case.S, [k \in 1..case.nin |-> Nopable(case.K[k])],
+                      IF "umut" \in DOMAIN case /\ case.umut THEN [k \in 1..case.nin |-> UKind(case.K[k])] ELSE <<>>)
          /\ hist = <<>> /\ vds = <<>> /\ cache = NoCache
 
 ----------------------------------------------------------------------------
@@ -36,10 +42,10 @@ CValidate(pos) ==
         v == IF cache[h] # <<>> THEN cache[h][1]
              ELSE IF k = 0 THEN [bug |-> FALSE] ELSE View(ins, outs, ver, lock, pos, h, svs[k])
     IN /\ steps < MaxSteps /\ pos \in Positions
-       /\ lastval' = <<pos, r.known /\ k # 0 /\ SamePuzzle(r) /\ v = sview[k]>>
+       /\ lastval' = <<pos, IF r.known /\ k # 0 /\ SamePuzzle(r) /\ v = sview[k] THEN "T" ELSE "F">>
        /\ cache' = [cache EXCEPT ![h] = <<v>>]
        /\ steps' = steps + 1
-       /\ UNCHANGED <<hts, svs, nops, sview, orig, ver, lock, ins, outs, inserts, case, hist, vds>>
+       /\ UNCHANGED <<hts, svs, nops, ukinds, sview, orig, ver, lock, ins, outs, inserts, case, hist, vds>>
 CNext == \/ (\E x \in AllMuts : Mutate(x)) /\ UNCHANGED <<case, hist, vds, cache>>
          \/ \E pos \in Positions : CValidate(pos)
 CSpec == MInit /\ [][CNext]_mvars
@@ -52,7 +58,9 @@ Emit == PrintT(ToJson([k |-> "hist", nin |-> case.nin, nout |-> case.nout, H |->
                        K |-> case.K, walk |-> case.walk, acts |-> hist', vds |-> vds']))
 RStep(x) == /\ Mutate(x)
             /\ hist' = Append(hist, x)
-            /\ vds' = Append(vds, [v |-> [p \in 1..Len(ins') |-> Verdict(p)'], bad |-> BadCount'])
+            \* per input "T" / "F" / "vs" (ask VerifyScript); bad counts the "F" ones
+            /\ vds' = Append(vds, [v |-> [p \in 1..Len(ins') |-> Verdict3(p)'],
+                                   bad |-> Cardinality({p \in 1..Len(ins') : Verdict3(p)' = "F"})])
             /\ UNCHANGED <<case, cache>>
             /\ Emit
 RNext == \E x \in AllMuts : RStep(x)
@@ -74,7 +82,8 @@ KindsOf(sv) == CASE sv = "base" -> <<"p2pkh", "p2pk", "ms_p2sh", "ms_bare", "p2p
                  [] sv = "witness" -> <<"p2wpkh", "ms_p2wsh", "p2sh_p2wpkh", "ms_p2sh_p2wsh">>
                  [] sv = "forkid" -> <<"p2pkh", "ms_p2sh", "p2pk", "ms_bare">>
 KindFor(sv, r) == KindsOf(sv)[(r % Len(KindsOf(sv))) + 1]
-CaseK(nin, nout, H, S, K, w) == [nin |-> nin, nout |-> nout, H |-> H, S |-> S, K |-> K, walk |-> w]
+CaseK(nin, nout, H, S, K, w) == [nin |-> nin, nout |-> nout, H |-> H, S |-> S, K |-> K, walk |-> w, umut |-> FALSE]
+CaseKU(nin, nout, H, S, K) == CaseK(nin, nout, H, S, K, 1)
 Case(nin, nout, H, S, w) == CaseK(nin, nout, H, S, [k \in 1..nin |-> KindFor(S[k], (H[k] % 7) + k + nout)], w)
 \* two inputs, two outputs: every hash type for input 1 with every signature-version pair;
 \* the hash type of input 2 rotates
@@ -89,6 +98,12 @@ CasesKinds == {CaseK(2, 2, <<h, 1>>, <<sv, IF sv = "forkid" THEN "forkid" ELSE "
                  h \in HashTypes, sv \in SigVersions, i \in 1..4}
               \cup {CaseK(1, 1, <<h>>, <<"base">>, <<"p2pkh:u">>, 1) : h \in HashTypes}
 \* quick tier: all pairs of mutations on a third of the cases
+\* unlocking-data mutations (verdicts delegated to VerifyScript): every non-fork-id puzzle kind, two hash types
+CasesU == {[c EXCEPT !.umut = TRUE] : c \in
+            {CaseKU(2, 2, <<h, 1>>, <<sv, "base">>, <<KindsOf(sv)[i], IF i % 2 = 0 THEN "p2pkh" ELSE "ms_p2sh">>) :
+               h \in {1, 131}, sv \in {"base", "witness"}, i \in 1..4}
+            \cup {CaseKU(2, 1, <<3, 2>>, <<"base", "witness">>, <<"p2pkh:u", "p2wpkh">>)}}
+CasesU2 == {c \in CasesU : c.H[1] = 131 \/ c.nout = 1}
 CasesOne == CasesQ \cup CasesKinds
 CasesPairsQ == {c \in CasesA : (c.H[1] + c.H[2]) % 3 = 0} \cup {c \in CasesB : c.nin = 2 /\ c.H[1] = 3}
 \* deeper histories on fewer cases
